@@ -717,6 +717,8 @@ def check_loops(ctx, fx, cfg):
         table = json.load(fh)["loops"]
     now = {}
     seen = set()
+    L.MONOTONE_SCANNERS.clear()
+    L.MONOTONE_SCANNERS.update(L.find_monotone_scanners([g for g in fx.functions if C.first_party(g)]))
     for f in fx.functions:
         if not C.first_party(f):
             continue
